@@ -41,6 +41,8 @@ func fmtDirectives(r *rng, e int, length int) []string {
 	}
 	// unsupported verbs and flags: must not panic, %!verb(number=…) for verbs
 	out = append(out, "%"+r.pickS([]string{"d", "s", "q", "x", "t", "c", "b", "o", "U"}))
+	// … also with a width, a precision and the '-' flag: the text inside the parentheses is String()
+	out = append(out, "%"+r.pickS([]string{"", "-"})+r.pickS([]string{"", "3", "24"})+r.pickS([]string{"", ".0", ".3", ".20"})+r.pickS([]string{"d", "s", "q", "x", "h"}))
 	out = append(out, "%"+r.pickS([]string{"+", "#", "0", "+0"})+r.pickS([]string{"f", "e", "g"}))
 	return out
 }
@@ -373,6 +375,22 @@ func genC06(e *emitter, r *rng, tier string) {
 				h := b.pickHandle()
 				if b.finiteWork(h) && b.cheapStart(h) {
 					b.add("pr:%d:r%d~%d:-", h, r.pick([]int{0, 5, 99, 100}), r.pick([]int{1, 50, 101, 150, 320}))
+				}
+			case 5:
+				// v3: creating iterators / matchers / stored sequences consults nothing
+				h := b.pickHandle()
+				if b.finiteWork(h) && b.cheapStart(h) {
+					switch r.intn(4) {
+					case 0:
+						b.add("mk:%d:back", h)
+						b.iters++
+					case 1:
+						b.add("mkfr:%d:1_2", h)
+					case 2:
+						b.add("mkf:%d:1_2", h)
+					default:
+						b.add("m:%d:1_2:0", h)
+					}
 				}
 			default:
 				b.read()
